@@ -99,10 +99,11 @@ PATHS = [
     "wp_dbschema",  # write_pandas(database=, schema=) into a table of another schema
     "wp_subset",  # write_pandas with a subset of the table's columns, in another order
     "wp_auto",  # write_pandas(auto_create_table=True)
+    "wp_opts",  # write_pandas of a several-row DataFrame x chunk_size x DataFrame index x parallel x quote_identifiers
 ]
 SQL_PATHS = ("lit", "pyformat", "qmark")
 DERIVED_PATHS = ("insert_select", "ctas", "clone")
-WP_PATHS = ("wp", "wp_dbschema", "wp_subset", "wp_auto")
+WP_PATHS = ("wp", "wp_dbschema", "wp_subset", "wp_auto", "wp_opts")
 
 # NULL placements of a cell [v]: none / NULL first / NULL in the middle / NULL last, + "after_identity": the value
 # preceded by the identity value of its type instead of a NULL (first-row sniffing by a falsy first value),
@@ -346,6 +347,68 @@ def allowed(ts, path, shape, value):
     return True
 
 
+# ---- write_pandas keyword arguments and DataFrame index (path wp_opts) ----
+# A DataFrame of WP_OPTS_N rows (4 values of the type + one NULL) is written once per element of the product below.
+# None of these options may change WHAT is stored: chunk_size only splits the upload, the DataFrame index is never
+# written (and must never select rows), parallel is the number of upload threads, and quoting ID / V / T1 (all upper
+# case) changes nothing.  Not varied, because the property statement does not say what they should do to the
+# "no other row changes" clause or to the column types: overwrite, table_type / create_temp_table (only with
+# auto_create_table), on_error, compression.  Not demanded of the result: the number of chunks reported.
+WP_OPTS_N = 5
+WP_CHUNKS = [("none", None), ("1", 1), ("2", 2), ("n-1", WP_OPTS_N - 1), ("n", WP_OPTS_N), ("n+1", WP_OPTS_N + 1)]
+WP_INDEXES = ["default", "shifted", "reversed", "labels", "duplicates"]
+WP_PARALLEL = [4, 1]
+WP_QUOTE = [True, False]
+# quick tier: the whole option product, for one type per synonym group
+WP_OPTS_QUICK_TYPES = ("BOOLEAN", "NUMBER", "INT", "NUMBER(10,2)", "FLOAT", "VARCHAR", "DATE", "TIME", "TIMESTAMP_NTZ",
+                       "TIMESTAMP_TZ", "BINARY", "VARIANT", "OBJECT", "ARRAY")
+
+
+def df_index(kind, n):
+    """Index labels of the DataFrame (None = pandas' default RangeIndex)."""
+    if kind == "default":
+        return None
+    if kind == "shifted":
+        return list(range(100, 100 + n))
+    if kind == "reversed":
+        return list(range(n - 1, -1, -1))
+    if kind == "labels":
+        return [f"r{i}" for i in range(n)]
+    if kind == "duplicates":
+        return [i // 2 for i in range(n)]
+    raise AssertionError(kind)
+
+
+def opts_values(ts):
+    """The 4 values of a wp_opts DataFrame: the first values of the type's alphabet that write_pandas is asked to
+    store at all and that sit on no 64-bit boundary (those have their own cells); one document repeated for JSON
+    (dicts of different keys in one DataFrame column are merged by the parquet struct: not demanded)."""
+    if ts["family"] == "json":
+        v = [v for k, v in values_for(ts) if allowed(ts, "wp", k, v)][-1]
+        return [v] * (WP_OPTS_N - 1)
+    vals = [v for k, v in values_for(ts) if allowed(ts, "wp", k, v) and vclass(ts, k, v) in ("any", "within_int64", "empty", "nonempty")]
+    return [vals[i % len(vals)] for i in range(WP_OPTS_N - 1)]
+
+
+def opts_cells(ts):
+    vals = opts_values(ts)
+    out = []
+    k = 0
+    for cl, chunk in WP_CHUNKS:
+        for ix in WP_INDEXES:
+            for par in WP_PARALLEL:
+                for q in WP_QUOTE:
+                    base = 10 * k + 1
+                    column = vals[:2] + [None] + vals[2:]
+                    out.append({
+                        "k": k, "shape": f"chunk={cl};index={ix};parallel={par};quote={q}", "null": "middle",
+                        "rows": [(base + i, v) for i, v in enumerate(column)],
+                        "opts": {"chunk": cl, "chunk_size": chunk, "index": ix, "parallel": par, "quote_identifiers": q},
+                    })
+                    k += 1
+    return out
+
+
 def type_applies(ts, path):
     if path == "wp_auto":
         return ts["sql"] in AUTO_TYPES
@@ -361,6 +424,8 @@ def type_applies(ts, path):
 def cells(ts, path, tier):
     """All cells of one (type, path) batch: every allowed value x every NULL placement, + the all-NULL cell.
     A cell is written by ONE statement / ONE write_pandas call; rows are (id, value-or-None)."""
+    if path == "wp_opts":
+        return opts_cells(ts)
     vals = values_for(ts)
     placements = PLACEMENTS
     if tier == "quick":
